@@ -150,7 +150,13 @@ def malformed_affinity(rng, K, L):
     toks = lines[i].split()
     kind = rng.below(9)
     if kind == 0 and toks:
-        toks[0] = rng.choice(['-1', '99999999999999999999', 'x', '1.5', '4294967295', str(L), str(L * 1000)])
+        # out-of-range layer ids, among them the ones whose product with the block size (K or K*K) WRAPS modulo 2^64 to a small number
+        wrap = []
+        for block in (K, K * K):
+            g = block & -block                                       # largest power of two dividing the block size
+            wrap += [str((1 << 64) // g), str((1 << 64) // g + 1), str(pow(block // g, -1, (1 << 64) // g) if block // g > 1 else (1 << 63))]
+        toks[0] = rng.choice(['-1', '99999999999999999999', 'x', '1.5', '4294967295', str(L), str(L * 1000), str(1 << 63), str(1 << 62), str((1 << 62) + 1),
+                              '12297829382473034411', '18446744073709551615'] + wrap)
     elif kind == 1 and len(toks) > 1:
         toks[rng.rint(1, len(toks) - 1)] = rng.choice(['abc', '1e999', '-1e999', 'nan', 'inf', '0x1p3', '--', '1..2'])
     elif kind == 2:
